@@ -516,10 +516,9 @@ class HeaderPacketReceiver(Elaboratable):
                         #  when we're next enabled.
                         acks_to_send          .eq(1),
 
-                        # -Decreasing our next sequence number; so we maintain a continuity of sequence numbers
-                        #  without counting the advertising one. This doesn't seem to be be strictly necessary
-                        #  per the spec; but seem to make analyzers happier, so we'll go with it.
-                        next_header_to_ack    .eq(next_header_to_ack - 1),
+                        # -Advertising the last sequence number we've received (the one before the next
+                        #  one we expect), whether or not we've got around to acknowledging it yet.
+                        next_header_to_ack    .eq(expected_sequence_number - 1),
 
                         # - Clearing all of our buffers.
                         read_pointer          .eq(0),
